@@ -3,6 +3,7 @@
 From Dashu Require Import Base.Prelude Float.RoundSpec Float.Contract Float.Model Conv.ConvSpec Conv.ConvModel Conv.ConvPrimProofs
   Conv.ConvArith Conv.ConvIeee Conv.ConvEncodeProofs Conv.ConvStickyProofs Conv.ConvDecodeProofs Conv.ConvRatProofs Conv.ConvFindings Conv.ConvSmallProofs Conv.ConvRatFull.
 From Dashu Require Import Conv.ConvFlocq Conv.ConvFlocqCor Conv.ConvParamsProof Conv.ConvFloatProofs Conv.ConvTryProofs.
+From Dashu Require Import Conv.ConvModel2 Conv.ConvSubnormal.
 From DashuGen Require Import ConvParams.
 From Coq Require Import List.
 Import ListNotations.
@@ -131,15 +132,17 @@ Theorem C06_rat_to_float_single_rounding_witness :
 Proof. exact rat_to_fbig_repaired_witness. Qed.
 Print Assumptions C06_rat_to_float_single_rounding_witness.
 
+(** F38, repaired for base 2 in the fourth round: the two statements are kept over the model of the code
+    BEFORE the repair ([fbig_to_float_old]); the class stays open for the other bases *)
 Theorem C06_fbig_to_float_subnormal_refuted :
-  fbig_to_float P32 2 MHalfEven 3 (-151) = Ok (FR 1 (Some NoOp)) /\
+  fbig_to_float_old P32 2 MHalfEven 3 (-151) = Ok (FR 1 (Some NoOp)) /\
   ieee_round F32 MHalfEven 3 (2 ^ 151) = (1, Gt) /\
   flag_of_error 1 Gt = Some AddOne.
 Proof. exact fbig_to_float_subnormal_refuted. Qed.
 Print Assumptions C06_fbig_to_float_subnormal_refuted.
 
 Theorem C06_fbig_to_float_subnormal_value_refuted :
-  fbig_to_float P32 2 MHalfEven (2 ^ 25 + 23) (-153) = Ok (FR (2 ^ 21 + 2) (Some NoOp)) /\
+  fbig_to_float_old P32 2 MHalfEven (2 ^ 25 + 23) (-153) = Ok (FR (2 ^ 21 + 2) (Some NoOp)) /\
   fst (ieee_round F32 MHalfEven (2 ^ 25 + 23) (2 ^ 153)) = 2 ^ 21 + 1.
 Proof. exact fbig_to_float_subnormal_value_refuted. Qed.
 Print Assumptions C06_fbig_to_float_subnormal_value_refuted.
@@ -304,7 +307,7 @@ Theorem C06_fbig2_to_f64 : forall m s e,
   fbig2_to_float P64 m s e =
     FR (fst (ieee_round F64 m (fst (frac_of s e)) (snd (frac_of s e))))
        (flag_of_error (Z.sgn s) (snd (ieee_round F64 m (fst (frac_of s e)) (snd (frac_of s e))))).
-Proof. exact fbig2_to_f64_correct. Qed.
+Proof. exact fbig2_to_f64_correct_r4. Qed.
 Print Assumptions C06_fbig2_to_f64.
 
 Theorem C06_fbig2_to_f32 : forall m s e,
@@ -312,21 +315,22 @@ Theorem C06_fbig2_to_f32 : forall m s e,
   fbig2_to_float P32 m s e =
     FR (fst (ieee_round F32 m (fst (frac_of s e)) (snd (frac_of s e))))
        (flag_of_error (Z.sgn s) (snd (ieee_round F32 m (fst (frac_of s e)) (snd (frac_of s e))))).
-Proof. exact fbig2_to_f32_correct. Qed.
+Proof. exact fbig2_to_f32_correct_r4. Qed.
 Print Assumptions C06_fbig2_to_f32.
 
-(** ... and for a significand that already fits (at most 53 / 24 bits) over the WHOLE exponent range,
+(** (the code before the fourth round, [fbig2_to_float_old]; still the route of every base other than 2 after
+    convert_base) ... and for a significand that already fits (at most 53 / 24 bits) over the WHOLE exponent range,
     subnormal results included: the bits are the round-to-nearest-even pattern whatever the mode
     (only encode rounds), the flag is None exactly when nothing was lost *)
 Theorem C06_fbig2_to_f64_short : forall m s e, s <> 0 -> blen (Z.abs s) <= 53 ->
-  fbig2_to_float P64 m s e =
+  fbig2_to_float_old P64 m s e =
     FR (fst (ieee_rne F64 (fst (frac_of s e)) (snd (frac_of s e))))
        (short_flag P64 s e (snd (ieee_rne F64 (fst (frac_of s e)) (snd (frac_of s e))))).
 Proof. exact fbig2_to_f64_short. Qed.
 Print Assumptions C06_fbig2_to_f64_short.
 
 Theorem C06_fbig2_to_f32_short : forall m s e, s <> 0 -> blen (Z.abs s) <= 24 ->
-  fbig2_to_float P32 m s e =
+  fbig2_to_float_old P32 m s e =
     FR (fst (ieee_rne F32 (fst (frac_of s e)) (snd (frac_of s e))))
        (short_flag P32 s e (snd (ieee_rne F32 (fst (frac_of s e)) (snd (frac_of s e))))).
 Proof. exact fbig2_to_f32_short. Qed.
@@ -438,12 +442,12 @@ Print Assumptions C06_rat_try_to_f64.
 (** TryFrom<FBig<R,2>> / TryFrom<Repr<2>> for f32 / f64, every mode, WHOLE exponent range *)
 Theorem C06_fbig2_try_to_f32 : forall m s e, s <> 0 ->
   conv_ok (fbig2_try_to_float P32 m s e) = exact_to_float F32 (fst (frac_of s e)) (snd (frac_of s e)).
-Proof. exact fbig2_try_to_f32_correct. Qed.
+Proof. exact fbig2_try_to_f32_all. Qed.
 Print Assumptions C06_fbig2_try_to_f32.
 
 Theorem C06_fbig2_try_to_f64 : forall m s e, s <> 0 ->
   conv_ok (fbig2_try_to_float P64 m s e) = exact_to_float F64 (fst (frac_of s e)) (snd (frac_of s e)).
-Proof. exact fbig2_try_to_f64_correct. Qed.
+Proof. exact fbig2_try_to_f64_all. Qed.
 Print Assumptions C06_fbig2_try_to_f64.
 
 (** TryFrom<f32/f64> for RBig / Relaxed (decode, reduce2) and for Repr<2> / FBig<R,2> *)
@@ -520,12 +524,12 @@ Print Assumptions C06_repr_to_int.
     inexact (then NoOp / overflow flag).  The exact content of the open class
     fbig_to_float_subnormal. *)
 Theorem C06_fbig2_to_f32_two_step : forall m s e, s <> 0 ->
-  fbig2_to_float P32 m s e = two_step P32 m (fst (normalize 2 s e)) (snd (normalize 2 s e)).
+  fbig2_to_float_old P32 m s e = two_step P32 m (fst (normalize 2 s e)) (snd (normalize 2 s e)).
 Proof. exact fbig2_to_f32_two_step. Qed.
 Print Assumptions C06_fbig2_to_f32_two_step.
 
 Theorem C06_fbig2_to_f64_two_step : forall m s e, s <> 0 ->
-  fbig2_to_float P64 m s e = two_step P64 m (fst (normalize 2 s e)) (snd (normalize 2 s e)).
+  fbig2_to_float_old P64 m s e = two_step P64 m (fst (normalize 2 s e)) (snd (normalize 2 s e)).
 Proof. exact fbig2_to_f64_two_step. Qed.
 Print Assumptions C06_fbig2_to_f64_two_step.
 
@@ -713,3 +717,65 @@ Theorem C06_cast_float_to_int_reference : forall sg TW bits,
   (f = Binary.B754_infinity 53 1024 true -> f64_to_int_ref sg TW bits = int_lo sg TW).
 Proof. exact f64_to_int_ref_spec. Qed.
 Print Assumptions C06_cast_float_to_int_reference.
+
+(** Fourth round, repair of F38 for base 2: FBig<R,2>::to_f32 / to_f64 and Repr<2>::to_f32 / to_f64 round ONCE - to 24 / 53
+    bits from the smallest normal number on, to a multiple of the smallest subnormal number below it (mode of the
+    number; a zero result keeps the sign).  Over the WHOLE range - normal, subnormal, underflow, overflow - and for
+    every mode the result is the IEEE rounding of the exact value with the truthful flag. *)
+
+Theorem C06_fbig2_to_f64_all : forall m s e, s <> 0 -> fbig2_to_float P64 m s e = to_float_spec F64 m s e.
+Proof. exact fbig2_to_f64_all. Qed.
+Print Assumptions C06_fbig2_to_f64_all.
+
+Theorem C06_fbig2_to_f32_all : forall m s e, s <> 0 -> fbig2_to_float P32 m s e = to_float_spec F32 m s e.
+Proof. exact fbig2_to_f32_all. Qed.
+Print Assumptions C06_fbig2_to_f32_all.
+
+Theorem C06_fbig_to_float_subnormal_repaired_witness :
+  fbig_to_float P32 2 MHalfEven 3 (-151) = Ok (FR 1 (Some AddOne)) /\
+  fbig_to_float P32 2 MHalfEven (2 ^ 25 + 23) (-153) = Ok (FR (2 ^ 21 + 1) (Some NoOp)) /\
+  fbig_to_float P32 2 MUp 1 (-200) = Ok (FR 1 (Some AddOne)) /\
+  fbig_to_float P32 2 MUp (-1) (-200) = Ok (FR (2 ^ 31) (Some NoOp)) /\
+  fbig_to_float P32 16 MHalfEven 6 (-38) = Ok (FR 1 (Some NoOp)) /\
+  ieee_round F32 MHalfEven 6 (2 ^ 152) = (1, Gt).
+Proof. exact fbig_to_float_subnormal_repaired_witness. Qed.
+Print Assumptions C06_fbig_to_float_subnormal_repaired_witness.
+
+(** Fourth round: FBig<R,B> / Repr<B> ::to_f32 / to_f64 for a base that is not a power of two and |exponent| beyond
+    THRESHOLD_SMALL_EXP (the ln/exp route of Context::convert_base, as-is model of C08 / C11 imported read-only, any
+    f32 estimate layer O, word size W, fuel): the conversion is the old-style base-2 conversion of the route's
+    approximant Y * 2^ye (one repr_round to 24 / 53 bits, then an exact encoding: no debug assertion), hence from the
+    smallest normal number on the IEEE rounding of the approximant with the truthful flag.  The distance of the
+    approximant from the exact value is C08's open class; its C06 face is refuted on a representable value. *)
+From Dashu Require Float.ElemF32 Float.ElemAsis Float.LargeExpAsis.
+From Dashu Require Import Conv.ConvLargeRoute.
+
+Theorem C06_fbig_to_float_large_route : forall (F : Type) (O : ElemF32.f32ops F) W fuel P B m s e t, 1 <= MB P ->
+  LargeExpAsis.large_trace_asis O W fuel B 2 (MB P + 1) m e = Ok t ->
+  fbig_to_float_large O W fuel P B m s e =
+    Ok (fbig2_to_float_old P m (s * approx_sig (LargeExpAsis.lt_exp t)) (LargeExpAsis.lt_q t + approx_exp (LargeExpAsis.lt_exp t))).
+Proof. exact @fbig_to_float_large_eq. Qed.
+Print Assumptions C06_fbig_to_float_large_route.
+
+Theorem C06_fbig_to_f64_large_route : forall (F : Type) (O : ElemF32.f32ops F) W fuel B m s e t,
+  LargeExpAsis.large_trace_asis O W fuel B 2 53 m e = Ok t ->
+  let Y := s * approx_sig (LargeExpAsis.lt_exp t) in let ye := LargeExpAsis.lt_q t + approx_exp (LargeExpAsis.lt_exp t) in
+  Y <> 0 -> emin F64 + prec F64 - 1 < blen (Z.abs Y) + ye ->
+  fbig_to_float_large O W fuel P64 B m s e = Ok (to_float_spec F64 m Y ye).
+Proof. exact @fbig_to_f64_large. Qed.
+Print Assumptions C06_fbig_to_f64_large_route.
+
+Theorem C06_fbig_to_f32_large_route : forall (F : Type) (O : ElemF32.f32ops F) W fuel B m s e t,
+  LargeExpAsis.large_trace_asis O W fuel B 2 24 m e = Ok t ->
+  let Y := s * approx_sig (LargeExpAsis.lt_exp t) in let ye := LargeExpAsis.lt_q t + approx_exp (LargeExpAsis.lt_exp t) in
+  Y <> 0 -> emin F32 + prec F32 - 1 < blen (Z.abs Y) + ye ->
+  fbig_to_float_large O W fuel P32 B m s e = Ok (to_float_spec F32 m Y ye).
+Proof. exact @fbig_to_f32_large. Qed.
+Print Assumptions C06_fbig_to_f32_large_route.
+
+Theorem C06_fbig_to_float_large_route_refuted :
+  fbig_to_float_large ElemAsis.no_f32 64 2000 P32 10 MUp (3 * 5 ^ 39) (-39) = Ok (FR 750780416 (Some AddOne)) /\
+  ieee_round F32 MUp (3 * 5 ^ 39) (10 ^ 39) = (750780416, Eq) /\
+  flag_of_error 1 Eq = None.
+Proof. exact fbig_to_float_large_route_refuted. Qed.
+Print Assumptions C06_fbig_to_float_large_route_refuted.
